@@ -2,6 +2,7 @@ package props
 
 import (
 	"fmt"
+	"os"
 	"runtime"
 	"sort"
 	"strings"
@@ -24,12 +25,12 @@ func init() {
 	core.RaceLockMarkers = []string{"SentenceInTx", "DoTransaction", "ExecuteRemoteTransactionWithCtx", "(*TransactionDatatype).Rollback"}
 	core.Register(&core.Prop{
 		ID:          "C20",
-		MaxBatch: 60,
+		MaxBatch:    60,
 		Level:       "exploration",
 		Workers:     4,
 		Race:        true,
 		CaseTimeout: 200e9,
-		Rule: "real parallel executions under the Go race detector: 2-8 goroutines issue operations and transactions - a quarter of which are aborted by their own body after doing all their calls - (values tagged goroutine x counter; documents: also through child handles kept from inside a transaction body) on ONE datatype of each type while a background goroutine syncs it with the real service and, in half of the rounds, a second client's operations arrive; yields / sleeps are injected at the BeginTransaction / unlock hook points with seeded probabilities; a pack observer builds push packs in a tight loop meanwhile. Monitors: every pack the observer or a sync builds holds whole transaction units only; conservation (counter = sum of the deltas of calls that returned success, plus the remote deltas; for the other types the final state equals the replay of the stored log, which holds exactly one operation per successful call); exactly-once and identifier order (the client's stored operations carry seq 1..n without gap or repeat and strictly increasing clocks); transaction contiguity (each TRANSACTION header is followed by exactly NumOfOps-1 operations, all carrying tags of the issuing goroutine); isolation inside a transaction body (a counter read-modify-read sequence sees only its own writes; the second client's recognisable units - {+D,-D} pairs on a counter, six keys written to one value on a map / document - are never seen half-applied by reads inside a local transaction); linearizability of return values in rounds without a second client (porcupine: counter IncreaseBy -> new value; map Put/Remove -> previous value, per key); no deadlock / panic (watchdog, worker crash); race-detector reports attributed to orda code, keyed by the unordered pair of innermost orda functions; " +
+		Rule: "real parallel executions under the Go race detector: 2-8 goroutines issue operations and transactions - a quarter of which are aborted by their own body after doing all their calls - (values tagged goroutine x counter; documents: also through child handles kept from inside a transaction body) on ONE datatype of each type while a background goroutine syncs it with the real service and, in half of the rounds, a second client's operations arrive; yields / sleeps are injected at the BeginTransaction / unlock hook points with seeded probabilities; a pack observer builds push packs in a tight loop meanwhile. Monitors: every pack the observer or a sync builds holds whole transaction units only; conservation (counter = sum of the deltas of calls that returned success, plus the remote deltas; for the other types the final state equals the replay of the stored log, which holds exactly one operation per successful call); exactly-once and identifier order (the client's stored operations carry seq 1..n without gap or repeat and strictly increasing clocks); transaction contiguity (each TRANSACTION header is followed by exactly NumOfOps-1 operations, all carrying tags of the issuing goroutine); isolation inside a transaction body (a counter read-modify-read sequence sees only its own writes; the second client's recognisable units - {+D,-D} pairs on a counter, six keys written to one value on a map / document - are never seen half-applied by reads inside a local transaction); linearizability of return values in rounds without a second client (porcupine: counter IncreaseBy -> new value; map Put/Remove -> previous value, per key); a transaction that fails after staying open while a pending call of the same application was pushed and acknowledged leaves nothing behind (rounds without a second client); no deadlock / panic (watchdog, worker crash); race-detector reports attributed to orda code, keyed by the unordered pair of innermost orda functions; " +
 			"non-trivial = >= 3 goroutines completed >= 5 calls each while >= 1 background sync applied a response; distinct = hash of the emitted (goroutine-tag) sequence, i.e. the interleaving actually observed",
 		Assumptions: []string{
 			"the application goroutines use the public mutators and transactions; getters are called only inside transaction bodies or after the goroutines have joined",
@@ -561,6 +562,85 @@ func runC20(c *core.Case) *core.Result {
 			return c.Violation("deadlock:"+typ, "application goroutines did not finish within 60 s; goroutines are blocked on the datatype's mutex:\n%s", clipDump(dump))
 		}
 		return c.Inconclusive("application goroutines did not finish within 60 s")
+	}
+	if !withRemote && violation.Load() == nil {
+		// quiet abort: the application is silent, everything it issued is acknowledged, only the
+		// background sync keeps running. One transaction does two calls, stays open until at
+		// least one more sync answer has been applied to the datatype, and then fails: the state
+		// and the pending list must be what they were before it began.
+		for t := 0; t < 400 && d.W.NeedPush(); t++ {
+			time.Sleep(5 * time.Millisecond)
+		}
+		if !d.W.NeedPush() {
+			rep := wrapRep(d)
+			viewBefore := rep.View()
+			if cn, ok := d.DT.(orda.Counter); ok {
+				viewBefore = fmt.Sprint(cn.Get())
+			}
+			pendBefore := len(d.W.CreatePushPullPack().Operations)
+			var body []crdt.Op
+			switch typ {
+			case "counter":
+				body = []crdt.Op{{Kind: "inc", N: 3}, {Kind: "inc", N: 4}}
+			case "map":
+				body = []crdt.Op{{Kind: "put", Key: "qa", Val: "quiet-1"}, {Kind: "put", Key: "qb", Val: "quiet-2"}}
+			case "list":
+				body = []crdt.Op{{Kind: "ins", Pos: 0, Vals: []interface{}{"quiet-1"}}, {Kind: "ins", Pos: 0, Vals: []interface{}{"quiet-2"}}}
+			default:
+				body = []crdt.Op{{Kind: "put", Key: "qa", Val: "quiet-1"}, {Kind: "put", Key: "qb", Val: "quiet-2"}}
+			}
+			// one ordinary call right before: its push and acknowledgement then fall INTO the open body
+			so := sureOp(typ, w.g)
+			crdt.Apply(d.DT, so)
+			atomic.AddInt64(&okCalls, 1)
+			if typ == "counter" {
+				atomic.AddInt64(&sumDeltas, int64(so.N))
+			}
+			viewBefore = rep.View()
+			if cn, ok := d.DT.(orda.Counter); ok {
+				viewBefore = fmt.Sprint(cn.Get())
+			}
+			answersBefore := atomic.LoadInt64(&applied)
+			waited := false
+			txBody := func(tx interface{}) error {
+				for _, o := range body {
+					if _, e := crdt.Apply(tx, o); e != nil {
+						return e
+					}
+				}
+				for t := 0; t < 150 && (d.W.NeedPush() || atomic.LoadInt64(&applied) < answersBefore+2); t++ {
+					time.Sleep(2 * time.Millisecond)
+				}
+				waited = !d.W.NeedPush() && atomic.LoadInt64(&applied) >= answersBefore+2
+				return errAbort
+			}
+			if pm := safely(func() {
+				switch t := d.DT.(type) {
+				case orda.Counter:
+					t.Transaction("quiet", func(x orda.CounterInTx) error { return txBody(x) })
+				case orda.Map:
+					t.Transaction("quiet", func(x orda.MapInTx) error { return txBody(x) })
+				case orda.List:
+					t.Transaction("quiet", func(x orda.ListInTx) error { return txBody(x) })
+				case orda.Document:
+					t.Transaction("quiet", func(x orda.DocumentInTx) error { return txBody(x) })
+				}
+			}); pm != "" {
+				fail("panic:"+typ, "a transaction that fails while sync answers arrive panicked: %s", pm)
+			}
+			viewAfter := rep.View()
+			if cn, ok := d.DT.(orda.Counter); ok {
+				viewAfter = fmt.Sprint(cn.Get())
+			}
+			if viewAfter != viewBefore {
+				fail("failed-tx-left-something:"+typ, "a transaction did two calls, stayed open while sync answers were applied (%v) and then failed: before it the datatype read %s, afterwards %s", waited, clip(viewBefore, 300), clip(viewAfter, 300))
+			} else if n := len(d.W.CreatePushPullPack().Operations); n > pendBefore+1 {
+				fail("failed-tx-left-something:"+typ, "a failed transaction left %d operations in the pending list", n-pendBefore)
+			}
+			if waited {
+				c.Count("quiet_aborts_with_answers_applied_meanwhile", 1)
+			}
+		}
 	}
 	close(done)
 	bg.Wait()
